@@ -229,6 +229,16 @@ def do_einsum(it, args, kwargs, node, kind="tensor"):
                     summed = tuple(j - n_lead for j, a_ in enumerate(axes_names) if a_ not in out_)
                     mm = T.app("matmul", ts[0], ts[1])
                     t = T.app("sum", mm, summed) if summed else mm
+        if t is None and len(ts) == 2:
+            # 'c<rest>,c<rest>-><rest>' over two stacks along the leading axis: the sum over the components of their elementwise
+            # products (for (re, im) pairs: re re + im im)
+            ins_, out_ = parse_einsum(spec_n)
+            if len(ins_) == 2 and ins_[0] == ins_[1] and len(ins_[0]) >= 1 and "..." not in spec_n and ins_[0][1:] == out_ and ins_[0][0] not in out_ and len(set(ins_[0])) == len(ins_[0]):
+                ca, cb = T.as_stack0(ts[0]), T.as_stack0(ts[1])
+                if ca is not None and cb is not None and len(ca) == len(cb):
+                    t = T.ZERO
+                    for x_, y_ in zip(ca, cb):
+                        t = t + x_ * y_
         if t is None:
             t = T.app("einsum%d" % len(ts), spec_n, *ts)
     return it.fresh(t, shape, kind, node)
@@ -808,8 +818,32 @@ def _call_torch(it, f, args, kwargs, node):
         # equal: the same entries; allclose: entries within a tolerance of each other - a different fact
         u = VNum("bool", T.app("tensor_equal" if f == "equal" else "tensor_allclose", a.term, b.term)) if a.term is not None and b.term is not None else VUnknown("torch." + f, "bool")
         return u
-    if f in ("matmul", "mm", "dot", "mv", "bmm"):
-        return torch_matmul(it, args, kwargs, node, op=f if f in ("dot", "mv") else "matmul")
+    if f == "complex" and len(args) == 2 and all(isinstance(a, VTens) for a in args):
+        # a native complex tensor from its parts: re + i im, the imaginary unit being the literal symbol
+        a, b = args
+        ta, tb = tterm(a), tterm(b)
+        try:
+            shp = broadcast(tshape(a), tshape(b), it.site(node))
+        except ShapeMismatch as e:
+            it.shape_errors.append((it.site(node), str(e)))
+            shp = None
+        r = it.fresh(ta + T.sym("lit:1j") * tb if ta is not None and tb is not None else None, shp, "tensor", node)
+        r.obj.native_complex = True
+        return r
+    if f in ("matmul", "mm", "dot", "mv", "bmm", "vdot"):
+        if f == "vdot" and len(args) == 2 and isinstance(args[0], VTens):
+            # vdot conjugates its first argument, dot does not
+            a0 = args[0]
+            if getattr(a0.obj, "native_complex", False) and a0.term is not None:
+                re_, im_ = T.complex_split(a0.term)
+                c0 = it.fresh(re_ - T.sym("lit:1j") * im_, a0.shape, "tensor", node)
+                c0.obj.native_complex = True
+                args = [c0] + list(args[1:])
+            f = "dot"
+        r = torch_matmul(it, args, kwargs, node, op=f if f in ("dot", "mv") else "matmul")
+        if isinstance(r, VTens) and any(isinstance(a, VTens) and getattr(a.obj, "native_complex", False) for a in args[:2]):
+            r.obj.native_complex = True
+        return r
     if f == "ger" or f == "outer":
         a, b = args[0], args[1]
         sa, sb = tshape(a), tshape(b)
@@ -821,7 +855,11 @@ def _call_torch(it, f, args, kwargs, node):
     if f in ("mul", "add", "sub", "div", "true_divide", "pow"):
         from .ops_tensor import BINARY
 
-        r = tensor_binop(it, BINARY[f], args[0], args[1], node)
+        other_ = args[1]
+        al_ = kwargs.get("alpha")
+        if al_ is not None and f in ("add", "sub") and not (isinstance(al_, VConst) and al_.value == 1):
+            other_ = tensor_binop(it, "Mult", other_, al_, node)  # torch.add(x, y, alpha=a) is x + a * y
+        r = tensor_binop(it, BINARY[f], args[0], other_, node)
         out = kwargs.get("out")
         if is_none(out):
             return r
@@ -1169,7 +1207,13 @@ def call_numpy(it, f, args, kwargs, node):
             fname = ast.unparse(node.args[0]) if node is not None and node.args else "?"
         # np.loadtxt squeezes: a file with one row or one column comes back 1-D (one number: 0-d) unless ndmin says otherwise
         okn, nd = const_of(kwargs.get("ndmin", VConst(0)))
-        r = it.fresh(T.sym("file(%s)" % fname), (UNK,) * nd if okn and isinstance(nd, int) and nd >= 1 else None, "ndarray", node)
+        oku, unp = const_of(kwargs.get("unpack", VConst(False)))
+        ft = T.sym("file(%s)" % fname)
+        if oku and unp:
+            ft = T.app("t", ft)  # unpack=True: the table comes back transposed (one row per column of the file)
+        elif not oku:
+            ft = None
+        r = it.fresh(ft, (UNK,) * nd if okn and isinstance(nd, int) and nd >= 1 else None, "ndarray", node)
         r.obj.loadtxt_kwargs = kwargs
         return r
     if f.startswith("random."):
